@@ -32,7 +32,10 @@ var locUTC = &LocV{kind: "utc", name: "UTC"}
 var locLocal = &LocV{kind: "local", name: "Local"}
 
 // BuilderV models strings.Builder.
-type BuilderV struct{ b []*smt.Term }
+type BuilderV struct {
+	b     []*smt.Term
+	grown bool
+}
 
 func (ex *Exec) timeZero() value {
 	// January 1, year 1, 00:00:00 UTC
